@@ -37,7 +37,10 @@ const rtPath = "github.com/mdzio/go-mqtt/verifrt/"
 var Packages = []string{"message", "sessions", "topics", "service", "auth"}
 
 // Skip lists files compiled unchanged (outside all properties).
-var Skip = map[string]bool{"service/websocket.go": true}
+// Skip lists files that are not instrumented.  (service/websocket.go was
+// skipped until session 3; its gorilla/websocket import is now replaced by the
+// vws shim, which brings the bridge under the scheduler.)
+var Skip = map[string]bool{}
 
 // Options of Build.
 type Options struct {
@@ -196,6 +199,12 @@ func (r *rewriter) rewrite() {
 				imp.Name = ast.NewIdent("atomic")
 			}
 			imp.Path.Value = strconv.Quote(rtPath + "vatomic")
+			r.st.Imports++
+		case "github.com/gorilla/websocket":
+			if imp.Name == nil {
+				imp.Name = ast.NewIdent("websocket")
+			}
+			imp.Path.Value = strconv.Quote(rtPath + "vws")
 			r.st.Imports++
 		}
 	}
